@@ -233,4 +233,56 @@ theorem parseFuel_append (n : Nat) : ∀ (bs : Bytes) (cs : List RawCell), parse
           simp only [readValue_append bs b2 rest y hr, ih rest cs' hp m b2 c2 h2]
           simp
 
+/-- What `read_value` consumed is one cell. -/
+theorem readValue_split (bs rest : Bytes) (x : RawCell) (h : readValue bs = some (x, rest)) :
+    ∃ c, IsCell c ∧ bs = c ++ rest := by
+  match bs, h with
+  | a :: b :: c :: d :: r, h =>
+    have hbe : beBytes 4 (beNat [a, b, c, d]) = [a, b, c, d] := beBytes_beNat [a, b, c, d]
+    simp only [readValue] at h
+    split at h
+    · rename_i hn
+      cases h
+      refine ⟨[a, b, c, d], .inl ?_, rfl⟩
+      rw [← hbe, hn]; rfl
+    · split at h
+      · rename_i hn
+        cases h
+        refine ⟨[a, b, c, d], .inr (.inl ?_), rfl⟩
+        rw [← hbe, hn]; rfl
+      · split at h
+        · cases h
+        · split at h
+          · cases h
+          · rename_i h1 h2 h3 h4
+            cases h
+            have hlen : (List.take (beNat [a, b, c, d]) r).length = beNat [a, b, c, d] := by
+              have := List.length_take (i := beNat [a, b, c, d]) (l := r)
+              omega
+            refine ⟨[a, b, c, d] ++ List.take (beNat [a, b, c, d]) r, .inr (.inr ⟨List.take (beNat [a, b, c, d]) r, ?_, ?_⟩), ?_⟩
+            · rw [hlen]; unfold i32Max; omega
+            · rw [hlen, hbe]
+            · simp
+  | [], h => simp [readValue] at h
+  | [_], h => simp [readValue] at h
+  | [_, _], h => simp [readValue] at h
+  | [_, _, _], h => simp [readValue] at h
+
+/-- Parsing a buffer that starts with a cell. -/
+theorem parseFuel_cons (c : Bytes) (hc : IsCell c) (n : Nat) (bs : Bytes) (cs : List RawCell)
+    (h : parseCellsFuel n bs = some cs) : ∃ x, parseCellsFuel (n + 1) (c ++ bs) = some (x :: cs) := by
+  obtain ⟨x, hx⟩ := readValue_cell c bs hc
+  refine ⟨x, ?_⟩
+  have hcne : c ≠ [] := by
+    rcases hc with rfl | rfl | ⟨body, _, rfl⟩
+    · simp [nullCell]
+    · simp [unsetCell]
+    · rw [beBytes4]; simp
+  rw [parseCellsFuel]
+  have hne : ¬ (c ++ bs).isEmpty = true := by
+    simp only [List.isEmpty_iff, List.append_eq_nil_iff, not_and]
+    intro hcn; exact absurd hcn hcne
+  rw [if_neg hne]
+  simp only [hx, h]
+
 end ScyllaVerif.Proofs.Row
